@@ -309,6 +309,19 @@ func (ms *Modules) process() []error {
 		loaded := len(ms.Modules) + len(ms.SubModules)
 		ms.includes = map[*Module]bool{}
 		errs = nil
+		// The links are the result of this run: a statement that is not
+		// linked now (its module is no longer reached, or linking fails
+		// before it) must not keep the link of an earlier run.
+		for _, set := range []map[string]*Module{ms.Modules, ms.SubModules} {
+			for _, m := range set {
+				for _, i := range m.Include {
+					i.Module = nil
+				}
+				for _, i := range m.Import {
+					i.Module = nil
+				}
+			}
+		}
 		for _, m := range mods {
 			if err := ms.include(m); err != nil {
 				errs = append(errs, err)
